@@ -61,6 +61,7 @@ def family(rng: random.Random, n: int):
         {"m2": "m1", "m3": ""},                        # later excludes earlier, coexisting m3s
         {"m1": "m2 m3", "m3": ""},                     # earlier excludes later ones
         {"m3": "g"}, {"m2": "g", "m1": "m4"}, {"m4": "h"}, {"m1": "h", "m3": ""},
+        {"m1": "m3"}, {"m3": "m1", "m2": ""},          # exclusion across an unrelated mark ranked in between
     ]
     out = [(config(e), e, ("m1", "m2", "m3", "m4")) for e in fixed]
     orders = list(itertools.permutations(("m1", "m2", "m3", "m4")))
